@@ -1,6 +1,7 @@
 import SnaxVerif.Lemmas.RegMap
 import SnaxVerif.Lemmas.CsrLower
 import SnaxVerif.Lemmas.Rocc
+import SnaxVerif.Lemmas.RoccProg
 /-!
 # C04 — CSR lowering writes every field to its declared register
 
@@ -335,6 +336,50 @@ theorem rocc_launch_carries_operands (decl : Dict) (ps : List (String × Var)) (
         rw [h1] at ha; rw [h2] at hb; cases ha; cases hb
         exact ⟨v1, v2, rfl, rfl, rfl, rfl⟩
   · cases h
+
+/-! ### RoCC, whole programs: the per-op theorems composed along a run
+
+`Stmt.setupR / launchR / awaitR` are the ops of an instruction-configured accelerator inside the program IR
+(`prev` = the real `infer_state_of(in_state)`, carried as an annotation); `lowerBlock` lowers them with
+`roccSetup / roccLaunch`.  `execRS / execRB` run the accfg level on the RoCC register file (a setup writes the
+fields it names), `execRCS / execRCB` run the emitted instructions (each writes both source registers); both log
+the register file at every opaque op, so an op placed anywhere observes the registers at that point. -/
+
+/-- **Whole program.** For every program (nested ifs / loops carrying data slots next to the state, all data
+semantics, branch outcomes, trip counts) whose lowering succeeds: if the hypotheses of the per-op theorems hold
+at every RoCC op the accfg-level run reaches (`PtsB`: names `<instr>.rs1/.rs2` of declared instructions; for a
+setup with input state the inferred previous state is sound for the registers AT THAT POINT — exactly what the
+state-inference theorem `C07.infer_sound_every_point` provides for its model — and for a setup without input
+state the operands it does not give were never set), then the instruction-level run ends in the same data
+state, the same register file and the same log of register snapshots: at every point of the run, in particular
+at every launch, the registers the accelerator sees are the values in effect at accfg level. -/
+theorem rocc_program_refines {σ : Type} (ds : List Decl) (sem : Sem σ) (p : Block) (q : CBlock)
+    (h : lowerBlock ds p = .ok q) (m : M σ) (hp : PtsB ds sem p m) : execRCB sem q m = execRB sem p m :=
+  roccB_refines ds sem p q h m hp
+
+/-- per op, register files: a setup WITHOUT input state (clause `NeverSetZero`, cf. `rocc_first_setup_fails`) -/
+theorem rocc_first_setup_refines_partial (decl : Dict) (ps : List (String × Var)) (val : Var → Int) (regs : RegsR)
+    (l : List RStmt) (hnever : NeverSetZero ps regs) (hn : RoccNames decl ps)
+    (h : roccSetup decl ps none = .ok l) : execR val l regs = applySetup val ps regs :=
+  rocc_first_setup_eq decl ps val regs l hnever hn h
+
+/-- per op, register files: a launch writes exactly its launch operands -/
+theorem rocc_launch_refines (decl : Dict) (ps : List (String × Var)) (val : Var → Int) (regs : RegsR)
+    (l : List RStmt) (hn : RoccNames decl ps) (h : roccLaunch decl ps = .ok l) :
+    execR val l regs = applySetup val ps regs :=
+  rocc_launch_eq decl ps val regs l hn h
+
+/-- non-vacuity: a loop whose body re-programs one half of an instruction (the other half retraced through the
+annotation) lowers to the expected instructions -/
+example :
+    lowerBlock [(⟨"gemmini", [("k.rs1", 9), ("k.rs2", 9)], [("go.rs1", 8), ("go.rs2", 8)], 0, .poll3⟩ : Decl)]
+      (.cons (.setupR "gemmini" [("k.rs1", 1), ("k.rs2", 2)] none)
+        (.cons (.forS 0 [.state] (.cons (.setupR "gemmini" [("k.rs1", 3)] (some [("k.rs1", 1), ("k.rs2", 2)]))
+          (.cons (.launchR "gemmini" [("go.rs1", 4), ("go.rs2", 5)]) (.cons (.awaitR "gemmini") .nil)))) .nil))
+    = .ok (.cons (.rocc (.insn "k" 9 (.var 1) (.var 2)))
+        (.cons (.forS 0 [] (.cons (.rocc (.insn "k" 9 (.var 3) (.var 2)))
+          (.cons (.rocc (.insn "go" 8 (.var 4) (.var 5))) .nil))) .nil)) := by
+  rfl
 
 /-- non-vacuity: gemmini, a deduplicated setup (rs2 of ADDRS_AB optimised away) with the previous state -/
 example : roccSetup regMapGemmini.fields [("k_LOOP_WS_CONFIG_ADDRS_AB.rs1", 1)]
